@@ -31,7 +31,12 @@ UNITS = [
     ("degree", "angle"), ("dB", "log"), ("G", "bfield_cgs"), ("T", "bfield_mks"), ("cm/s", "velocity"),
     ("km/hr", "velocity"), ("g/cm**3", "density"), ("Hz", "rate"), ("A*m", "irreducible"), ("Msun", "mass"),
     ("code_length", "length"), ("kcode_length", "length"), ("code_mass", "mass"),
+    # unsimplified compound units with cancelling factors (simplify() rewrites the expression of such a unit in
+    # place, so any call that simplifies an operand's own unit object shows up in the snapshot), a scaled
+    # dimensionless unit, and the second logarithmic unit
+    ("m**2/cm", "length"), ("s*km/hr", "length"), ("km/m", "none"), ("g*cm**2/s**2/erg", "none"), ("Np", "log"),
 ]
+GUARDED = ["degC", "degF", "dB", "Np", "delta_degC", "delta_degF"]
 BY_DIM = {}
 for _u, _d in UNITS:
     BY_DIM.setdefault(_d, []).append(_u)
@@ -357,7 +362,7 @@ def templates():
 # fault kinds ------------------------------------------------------------
 
 ROLE_FAULTS = ["readonly", "int8", "uint8", "bool", "bigint", "overlap", "noncontig", "zerod", "size1", "empty",
-               "dim_mismatch", "other_registry", "intdtype", "view"]
+               "dim_mismatch", "other_registry", "intdtype", "view", "guarded_unit"]
 PARAM_FAULTS = {"u": ["unknown_unit", "absent_symbol", "dim_mismatch_u", "garbage_u"],
                 "sys": ["irreducible", "unknown_sys"],
                 "equiv": ["bad_equiv_name", "equiv_not_covering", "surplus_kw"],
@@ -545,6 +550,21 @@ class Gen18:
                 s["reuse"] = (r.choice(other), r.choice(["all", "same", "rev", "self"]))
             elif kind == "dim_mismatch":
                 s["unit"] = self.pick_unit(avoid_dim=self.dim_of(spec[other[0]]["unit"]) if other else xdim)
+            elif kind == "guarded_unit":
+                # the operand carries a unit that unyt guards (offset temperature, logarithmic): as an input the
+                # call is mostly refused; as an out= target the unit it carried BEFORE the call must not matter
+                s["unit"] = r.choice(GUARDED)
+                if site != "o":
+                    gd = self.dim_of(s["unit"]) or "temperature"
+                    for ro in other:
+                        if ro != "o" and r.random() < 0.6:
+                            spec[ro]["unit"] = r.choice(BY_DIM.get(gd, [s["unit"]]) + [s["unit"]])
+                else:
+                    # make the result unit carry a numeric coefficient (m/cm -> 100) half of the time
+                    if "y" in spec and r.random() < 0.5:
+                        alts = [u for u in BY_DIM.get(self.dim_of(spec["x"]["unit"]), []) if u != spec["x"]["unit"]]
+                        if alts:
+                            spec["y"]["unit"] = r.choice(alts)
             elif kind == "other_registry":
                 s["reg"] = "R"
                 if r.random() < 0.5:
